@@ -346,8 +346,11 @@ Proof.
     unfold cross; simpl. lra.
 Qed.
 
+Lemma cross_nil rest : cross [] rest = 0.
+Proof. unfold cross; induction rest as [|y rest IH]; simpl in *; lra. Qed.
+
 Lemma kunc_eq rows : kunc rows = wgt rows * wgt rows * pairabs (map fst rows).
-Proof. unfold kunc. rewrite unc_loop_RR. unfold cross; simpl. lra. Qed.
+Proof. unfold kunc. rewrite unc_loop_RR, cross_nil. lra. Qed.
 
 Lemma pairabs_nonneg l : 0 <= pairabs l.
 Proof.
